@@ -34,7 +34,8 @@ class Ctx:
             self._scratch = lib.Scratch()
             self.cov["access_files"] = self._scratch.access
             if not self._scratch.access:
-                self.drift.append("access files do not compile against the working tree (layout pinning / projection skipped)")
+                off = [k for k, v in self._scratch.features.items() if not v]
+                self.drift.append("in-package access files do not compile against the working tree; degraded features: %s (pins = layout pinning of Map/MapOf/Cache, cpins = of CacheOf, phys = physical cache items, project = table projection / CLHT conformance)" % ", ".join(off))
         return self._scratch
 
     def add_model(self, name, res):
@@ -1123,7 +1124,7 @@ def clht_conformance(ctx, kinds):
     take every step, compute the same results and end in the same table. A mismatch is SPEC-DRIFT, never a verdict."""
     import concurrent.futures
     sc = ctx.scratch()
-    if not sc.access:
+    if not (sc.features["project"] and sc.features["pins"]):
         ctx.cov["impl_conformance"] = "skipped_no_access"
         return
     per = 1 if not ctx.thorough else 8
